@@ -23,6 +23,26 @@ NOT_FOUND = "include file not found"
 REACHED = {}
 
 
+# A syntactically broken statement (foreach without an iterator name: already a syntax error) whose body
+# the indexer does not enter today: an include statement in there is resolved, linked and followed by
+# collect_sources, but gets no not-found diagnostic (DESIGN appendix D, carved out of the not-found clause).
+# Whether the indexer arrives there is MEASURED on the tree under test by `calibrate` (a probe with a missing
+# target), not assumed: a tree that starts indexing such bodies is not reported as a violation.
+UNREACHED_TEMPLATE = 'foreach = [1, 2] in { include "%s" }'
+UNREACHED = {"reached": False, "calibrated": False}
+
+
+def calibrate(bindir):
+    probe = UNREACHED_TEMPLATE % "zz-probe-missing.td"
+    case = {"mode": "memfs", "files": [], "include_dir": None, "history": [["touch", "probe.td", probe + "\n"]]}
+    r = run_harness(bindir, [case], 4000)[0]
+    if "steps" in r:
+        ds = r["steps"][0]["diagnostics"].get("probe.td", [])
+        UNREACHED["reached"] = any(m.startswith(NOT_FOUND) for _, _, m in ds)
+    UNREACHED["calibrated"] = True
+    return UNREACHED["reached"]
+
+
 def build_text(parts):
     """parts: list of tuples; returns the text.  Registers the `reached` flags of its includes."""
     out, flags = [], []
@@ -40,8 +60,10 @@ def build_text(parts):
             out.append('foreach i = [1, 2] in { include "%s" }' % p[1]); flags.append(True)
         elif k == "inc_deep":
             out.append('if 1 then { let x = 1 in { foreach i = 1...2 in include "%s" } }' % p[1]); flags.append(True)
+        elif k == "inc_foreach_unknown":
+            out.append('foreach i = undefinedvar in { include "%s" }' % p[1]); flags.append(True)
         elif k == "inc_unreached":
-            out.append('foreach i = undefinedvar in { include "%s" }' % p[1]); flags.append(False)
+            out.append(UNREACHED_TEMPLATE % p[1]); flags.append(UNREACHED["reached"])
         elif k == "inc_nopath":
             out.append('include ;'); flags.append(True)
         elif k == "decl":
